@@ -197,9 +197,11 @@ class Report:
         self.errors = []
         self.extra = {}
         self.exhaustive_parts = []
+        self.campaign_evaluations = 0  # Hypothesis cases only: the base of the class-floor fractions
 
     def merge_shard(self, st):
         self.evaluations += st["evaluations"]
+        self.campaign_evaluations += st["evaluations"]
         self.subcases += st["subcases"]
         self.tags.update(st["tags"])
         self.hashes |= st["nontrivial_hashes"]
@@ -301,6 +303,8 @@ def run_property(prop_name, tier, replay=None):
         with open(replay) as f:
             obj = json.load(f)
         case = obj["case"] if isinstance(obj, dict) and "case" in obj else obj
+        if isinstance(obj, dict) and "seed" in obj:
+            os.environ["VERIF_SEED"] = str(obj["seed"])  # some checks derive shared inputs (e.g. the C14 pool) from the seed
         ev = prop.evaluate(case)
         opens = open_findings(prop.ID)
         bad = [d for d in ev.deviations if classify_known(prop, case, d, opens) is None]
@@ -314,6 +318,8 @@ def run_property(prop_name, tier, replay=None):
 
     rep = Report(prop, tier, seed)
     try:
+        if hasattr(prop, "prepare"):
+            prop.prepare(tier, seed)  # parent-only work that must be finished before any shard starts (shared immutable inputs)
         _replay_known(prop, rep)
         _replay_corpus(prop, rep)
         budget = prop.budget(tier)
@@ -334,7 +340,7 @@ def run_property(prop_name, tier, replay=None):
 
 def finish(prop, rep):
     wall = time.time() - rep.t0
-    ev_total = max(1, rep.evaluations)
+    ev_total = max(1, rep.campaign_evaluations or rep.evaluations)
     floors = getattr(prop, "FLOORS", {})
     shortfalls = {}
     gross = []
